@@ -106,7 +106,9 @@ func rootState(l *lexer) stateFn {
 		l.emit(LeftAngleBracket)
 	case r == '>':
 		l.emit(RightAngleBracket)
-	case unicode.IsDigit(r):
+	case r >= '0' && r <= '9':
+		// only ASCII digits start a number: acceptRun below consumes nothing else,
+		// so a digit of another script made the lexer emit empty Number tokens for ever
 		l.backup()
 		l.acceptRun("0123456789")
 		l.emit(Number)
